@@ -277,6 +277,30 @@ func stackScenarios(tier string, r *vlib.Rng) []*scen.Scenario {
 			}
 		}
 	}
+	// olla engine: the preferred endpoint's breaker was opened by a request history and its window has elapsed, so this
+	// request is the recovery probe; the probe fails at connection level. That is a failed attempt like any other: the
+	// next candidate serves the request and the endpoint leaves the rotation until a health check readmits it.
+	for _, bal := range []string{"priority", "round-robin"} {
+		for _, kind := range []string{"refuse", "reset0"} {
+			for n := 1; n <= 3; n++ {
+				sc := &scen.Scenario{Engine: "olla", Balancer: bal, Profile: "auto", Method: "POST", Path: "/olla/proxy/v1/chat/completions",
+					ReqBody: fmt.Sprintf(`{"messages":[{"role":"user","content":"p%d"}]}`, r.Intn(1000)), Followup: true}
+				sc.EPs = append(sc.EPs, scen.EPSpec{Name: "A", Prio: 300, HalfOpen: true, Beh: scen.FaultBeh("A", kind, 50, 10, false, "application/json")})
+				if n >= 2 {
+					sc.EPs = append(sc.EPs, scen.EPSpec{Name: "B", Prio: 200, Beh: scen.OkBeh("B", 200, 40, false, "application/json")})
+				}
+				if n == 3 {
+					sc.EPs = append(sc.EPs, scen.EPSpec{Name: "C", Prio: 100, Beh: scen.OkBeh("C", 200, 40, false, "application/json")})
+				}
+				if bal != "priority" {
+					for i := range sc.EPs {
+						sc.EPs[i].Prio = 100
+					}
+				}
+				out = append(out, sc)
+			}
+		}
+	}
 	return out
 }
 
